@@ -23,7 +23,7 @@ Proof. exact items_cover_active_once. Qed.
 Print Assumptions C12_items_cover_active_once.
 
 Example C12_items_cover_example :
-  let vs := [mkVar 1 [false; true; true] [] [1; 1; 1]%Z; mkVar 2 [true] [] [1%Z]; mkVar 1 [true; false] [] [1; 1]%Z] in
+  let vs := [mkVar 1 [false; true; true] [] [1; 1; 1]%Z [] false; mkVar 2 [true] [] [1%Z] [] false; mkVar 1 [true; false] [] [1; 1]%Z [] false] in
   build_items (active_vars 1 vs) = [(0, 0); (0, 1); (2, 0)] /\
   flat_map (item_evaluates vs) (build_items (active_vars 1 vs)) = [(0, 1); (0, 2); (2, 0)].
 Proof. vm_compute. split; reflexivity. Qed.
@@ -87,7 +87,7 @@ Proof. exact serial_equals_parallel. Qed.
 Print Assumptions C12_serial_equals_parallel.
 
 Example C12_serial_equals_parallel_example :
-  let c := mkCfg [mkVar 1 [true; true; true] [false; true; true] [1; 1; 1]%Z; mkVar 1 [true] [] [2%Z]]
+  let c := mkCfg [mkVar 1 [true; true; true] [false; true; true] [1; 1; 1]%Z [] false; mkVar 1 [true] [] [2%Z] [] false]
                  [mkBias 1 [0; 1] 2 [0; 0]%Z; mkBias 2 [1] 1 [1%Z]] true false [(1, 3%Z)] in
   step_error c 0 = false /\ n_cvc_items c 0 = 3 /\ n_bias_items c 0 = 3 /\
   Permutation [2; 0; 1] (seq 0 3) /\ Merge (deal 2 (fun k => k mod 2) [2; 0; 1]) [2; 1; 0].
@@ -236,3 +236,35 @@ Proof.
   - reflexivity.
   - cbn. apply perm_skip. apply perm_swap.
 Qed.
+
+(* (xiii) SMP mode.  The configuration keyword `smp` selects cvcs | inner_loop | none; only cvcs takes the item list and the
+   parallel loops.  Whatever the mode (and, in cvcs mode, whatever the schedule) the store after the step is the serial one. *)
+Theorem C12_mode_independent : forall (m : smp_mode) (c : cfg) (t : nat) (oc ob : list nat) (s : store),
+  Permutation oc (seq 0 (n_cvc_items c t)) -> Permutation ob (seq 0 (n_bias_items c t)) ->
+  forall l, step_mode m c t oc ob s l = step_serial c t s l.
+Proof. exact step_mode_eq_serial. Qed.
+Print Assumptions C12_mode_independent.
+
+(* (xiv) Which loop the biases run in: the parallel loop is taken iff the mode is cvcs and NO active bias shares data with
+   replicas (replica_share_freq() = 0 for all of them); replica_share_freq of every bias kind is the table of SmpModel.v section 12,
+   compared on every run with the values printed by the rebuilt binary for each configurable kind (regenerated table,
+   C12_gen_share_freq_matches_model). *)
+Theorem C12_parallel_bias_loop_iff : forall (m : smp_mode) (active : list bias_kind),
+  parallel_bias_loop m active = true <-> m = ModeCvcs /\ forall k, In k active -> replica_share_freq k = 0.
+Proof. exact parallel_bias_loop_spec. Qed.
+Print Assumptions C12_parallel_bias_loop_iff.
+
+(* (xv) Distribution of the items over the threads of the library's own OpenMP loop (static schedule): nt contiguous blocks
+   that partition the item list, sizes n/nt or n/nt + 1; every interleaving of the threads runs every item exactly once. *)
+Theorem C12_omp_static_partition : forall (n nt : nat), 0 < nt ->
+  concat (omp_static n nt) = seq 0 n /\ length (omp_static n nt) = nt /\
+  Forall (fun q => length q = n / nt \/ length q = S (n / nt)) (omp_static n nt).
+Proof. exact omp_static_spec. Qed.
+Print Assumptions C12_omp_static_partition.
+
+Theorem C12_omp_static_exactly_once : forall (n nt : nat) (l : list nat), 0 < nt -> Merge (omp_static n nt) l -> Permutation l (seq 0 n).
+Proof. exact omp_static_exactly_once. Qed.
+Print Assumptions C12_omp_static_exactly_once.
+
+Example C12_omp_static_example : omp_static 7 3 = [[0; 1; 2]; [3; 4]; [5; 6]] /\ omp_thread_of 7 3 4 = 1 /\ omp_static 2 4 = [[0]; [1]; []; []].
+Proof. repeat split; reflexivity. Qed.
